@@ -106,6 +106,8 @@ def dump_registries(_):
                             except RuntimeError:
                                 res = None
                             entries.append({"member": entry.name, "id": rec.id, "resistance": res,
-                                            "isfile": entry.isfile()})
+                                            "isfile": entry.isfile(),
+                                            "labels": [(list(f.qualifiers["label"]) if "label" in f.qualifiers else None)
+                                                       for f in rec.features]})
                 out.append({"registry": cls.__name__, "module": mod, "entries": entries})
     return out
